@@ -79,6 +79,7 @@ theorem render_segsExpr : ∀ e : Expr, renderSegs (segsExpr e) = renderExpr e
   | .mapDrop m ps => by
     simp [segsExpr, renderExpr, renderSegs_joinS, render_segsExpr m, List.map_map, Function.comp_def, render_dropClauseSegs]
   | .labelsFp => by simp [segsExpr, renderExpr]
+  | .quantileAgg units scale col => by simp [segsExpr, renderExpr]
 theorem render_segsSels : ∀ ss : List Sel, (segsSels ss).map renderSegs = renderSels ss
   | [] => by simp [segsSels, renderSels]
   | s :: ss => by simp [segsSels, renderSels, render_segsSel s, render_segsSels ss]
